@@ -30,4 +30,6 @@ def run(tier, seed):
         "BLOB values compare by identity, as in the code",
     ]
     chk.min_obligations = 1500
+    chk.standin_on_out_of_reach("native client event scenarios", "client.events", {"seed": seed},
+                                bound_text="random streams with registered callbacks (all filter combinations), events compared with an independent reference")
     return chk.finish()
